@@ -274,6 +274,20 @@ int main(int argc, char **argv) {
             H3Index b = straight(a, (res == 15 ? 2500 : res == 14 ? 4000 : 6000) + (int)vt_randn(quick ? 2500 : 6000));
             ev_path(a, b);
         }
+    } else if (argc == 5 && !strcmp(argv[1], "pathij")) {
+        /* model -> code for H3Path: lines on a pentagon-free patch, in the start cell's own local IJ coordinates */
+        int quick = argv[2][0] == 'q'; vt_seed(strtoull(argv[3], 0, 10) + 141); vt_open(argv[4]);
+        for (int rr = 0; rr < (quick ? 2 : 6); rr++) {
+            int res = 5 + rr; LatLng g = {0.45 + 0.03 * rr, 0.2 + 0.05 * rr}; H3Index c0 = 0; latLngToCell(&g, res, &c0);   /* inside a hexagon base cell, far from pentagons and icosahedron vertices */
+            H3Index st[19] = {0}; gridDisk(c0, 2, st); int64_t sz; maxGridDiskSize(9, &sz); H3Index *d = calloc(sz, sizeof(H3Index));
+            for (int s = 0; s < 19; s++) { H3Index a = st[s]; if (!a || (quick && s % 3)) continue; if (gridDisk(a, 9, d)) continue;
+                CoordIJ ca; if (cellToLocalIj(a, a, 0, &ca)) continue;
+                for (int64_t q = 0; q < sz; q++) { H3Index b = d[q]; if (!b) continue; CoordIJ cb; if (cellToLocalIj(a, b, 0, &cb)) continue;
+                    int64_t n = 0; H3Error r = gridPathCellsSize(a, b, &n); H3Index *pth = NULL; if (!r && n > 0 && n < 64) { pth = calloc(n, sizeof(H3Index)); r = gridPathCells(a, b, pth); }
+                    fprintf(vt_out, "{\"e\":\"pathIJ\",\"res\":%d,\"a\":[%d,%d],\"b\":[%d,%d],\"r\":%u,\"p\":[", res, ca.i, ca.j, cb.i, cb.j, r);
+                    int bad = 0; if (!r && pth) for (int64_t t = 0; t < n; t++) { CoordIJ c; if (cellToLocalIj(a, pth[t], 0, &c)) { bad = 1; c.i = c.j = 99999; } fprintf(vt_out, "%s[%d,%d]", t ? "," : "", c.i, c.j); }
+                    (void)bad; fputs("]}\n", vt_out); free(pth); } }
+            free(d); }
     } else return 2;
     vt_close();
     return 0;
